@@ -26,15 +26,16 @@ ASSUME = ["that the step-halving search reaches the tolerance is a runtime fact"
 
 
 def _counter_at_limit(t):
-    """(counter, limit) when the test says 'counter == limit' or 'counter >= limit' (either way round) with a local counter."""
+    """[(counter, limit)] (both readings of an equality between two locals) when the test says 'counter == limit' or 'counter >= limit' (either way round) with a local counter."""
+    out = []
     if t[0] == "cmp" and t[1] == "==":
         for a, b_ in ((t[2], t[3]), (t[3], t[2])):
             if a[0] == "local" and b_[0] in ("local", "const"):
-                return a, b_
+                out.append((a, b_))
     o = ordered(t)
     if o is not None and not o[2] and o[1][0] == "local" and o[0][0] in ("local", "const"):
-        return o[1], o[0]
-    return None
+        out.append((o[1], o[0]))
+    return out or None
 
 
 def run(prog, rep):
@@ -267,8 +268,9 @@ def one(prog, rep, cls, comb):
             for p_, w_ in cfg.enclosing(st_w):
                 if isinstance(p_, ast.If) and w_ == "body" and any(x is p_ for x in ast.walk(W)):
                     t_if = bs.term(p_.test, p_)
-                    cl = _counter_at_limit(t_if)
-                    if cl is not None and cl[0] == lv and last is not None:
+                    for cl in _counter_at_limit(t_if) or ():
+                        if cl[0] != lv or last is None:
+                            continue
                         lim_t = cl[1]
                         lim_full = bf.name(lim_t[1], W, {}) if lim_t[0] == "local" else lim_t
                         last_full = subst(last, {s_: bf.name(s_[1], W, {}) for s_ in walk(last) if s_[0] == "local"})
